@@ -48,6 +48,14 @@ var (
 	verifErrJSON   = errors.New("model json: syntax error")
 )
 
+// one map for all model Redis instances: slot = address + "/" + key
+const verifAddr = "model:6379"
+
+func verifAt(r *redis.Redis, key string) string { return r.Addr + "/" + key }
+
+// slot of key on the single-node harnesses' Redis
+func verifSlot(key string) string { return verifAddr + "/" + key }
+
 func verifRedisFails(what string) bool {
 	if verifRedis.down {
 		return true
@@ -61,7 +69,7 @@ func verifRedisGet(r *redis.Redis, ctx context.Context, key string) (string, err
 		verifRedis.getFailed++
 		return "", verifErrRedis
 	}
-	return verifRedis.data[key].val, nil
+	return verifRedis.data[verifAt(r, key)].val, nil
 }
 
 func verifRedisSetEx(r *redis.Redis, ctx context.Context, key, value string, seconds int) error {
@@ -69,7 +77,7 @@ func verifRedisSetEx(r *redis.Redis, ctx context.Context, key, value string, sec
 	if verifRedisFails("setFault") {
 		return verifErrRedis
 	}
-	verifRedis.data[key] = verifEntry{value, seconds}
+	verifRedis.data[verifAt(r, key)] = verifEntry{value, seconds}
 	return nil
 }
 
@@ -81,8 +89,8 @@ func verifRedisDel(r *redis.Redis, ctx context.Context, keys ...string) (int, er
 	}
 	cnt := 0
 	for _, k := range keys {
-		if _, ok := verifRedis.data[k]; ok {
-			delete(verifRedis.data, k)
+		if _, ok := verifRedis.data[verifAt(r, k)]; ok {
+			delete(verifRedis.data, verifAt(r, k))
 			cnt++
 		}
 	}
@@ -178,7 +186,7 @@ func verifNewNode(expire, notFound time.Duration, typ string) node {
 	verifAroundLog = nil
 	verifTimers = nil
 	return node{
-		rds:            &redis.Redis{Addr: "model:6379", Type: typ},
+		rds:            &redis.Redis{Addr: verifAddr, Type: typ},
 		expire:         expire,
 		notFoundExpire: notFound,
 		barrier:        syncx.NewSingleFlight(),
@@ -200,16 +208,16 @@ func verifSeedCache(key string) (kind int, cachedRow string) {
 	kind = verifChoose("cached", 4)
 	switch kind {
 	case 1:
-		verifRedis.data[key] = verifEntry{notFoundPlaceholder, 1}
+		verifRedis.data[verifSlot(key)] = verifEntry{notFoundPlaceholder, 1}
 	case 2:
 		cachedRow = verifRow("cachedRow", 2)
-		verifRedis.data[key] = verifEntry{verifEnc(cachedRow), 1}
+		verifRedis.data[verifSlot(key)] = verifEntry{verifEnc(cachedRow), 1}
 	case 3:
 		g := verifString("garbage", 3)
 		verifAssume(len(g) > 0)
 		verifAssume(g != notFoundPlaceholder)
 		verifAssume(!verifDecodes(g))
-		verifRedis.data[key] = verifEntry{g, 1}
+		verifRedis.data[verifSlot(key)] = verifEntry{g, 1}
 	}
 	return
 }
@@ -223,7 +231,7 @@ func verifSeedCache(key string) (kind int, cachedRow string) {
 func verifTTLOK(key string, base time.Duration, what string) {
 	d, ok := verifJitterOf(base)
 	verifAssert(ok, what+": TTL is drawn around the configured expiry")
-	ttl := verifRedis.data[key].ttl
+	ttl := verifRedis.data[verifSlot(key)].ttl
 	verifAssert(ttl == int(math.Ceil(d.Seconds())), what+": stored TTL is the jittered expiry rounded up to whole seconds")
 }
 
@@ -293,7 +301,7 @@ func Verif_C06_take() {
 		verifAssert(queries == 1, "miss: the database is queried exactly once")
 		if dbDown {
 			verifAssert(err == verifErrDB, "miss, database down: its error is returned")
-			_, cached := verifRedis.data[key]
+			_, cached := verifRedis.data[verifSlot(key)]
 			verifAssert(!cached || kind == 3, "miss, database down: nothing is cached")
 			verifReach("db-error")
 			return
@@ -315,7 +323,7 @@ func Verif_C06_take() {
 	}
 
 	// fault-free: what the cache now holds, and with which TTL
-	e, cached := verifRedis.data[key]
+	e, cached := verifRedis.data[verifSlot(key)]
 	switch {
 	case kind == 1:
 		verifAssert(cached && e.val == notFoundPlaceholder, "placeholder stays")
@@ -365,7 +373,7 @@ func Verif_C06_ops() {
 		default:
 			verifAssert(err == verifErrNoRows, "get, absent/placeholder/undecodable: not-found is returned")
 			if kind == 3 && verifRedis.delFailed == 0 {
-				_, cached := verifRedis.data["k"]
+				_, cached := verifRedis.data[verifSlot("k")]
 				verifAssert(!cached, "get, undecodable: the entry is removed")
 				verifReach("get-garbage")
 			}
@@ -376,7 +384,7 @@ func Verif_C06_ops() {
 		row := verifRow("row", 2)
 		err := n.SetCtx(ctx, "k", &row)
 		verifAssert(err == nil, "set: succeeds on a healthy Redis")
-		verifAssert(verifRedis.data["k"].val == verifEnc(row), "set: the row is cached")
+		verifAssert(verifRedis.data[verifSlot("k")].val == verifEnc(row), "set: the row is cached")
 		verifTTLOK("k", E, "set")
 		var got string
 		verifAssert(n.GetCtx(ctx, "k", &got) == nil && got == row, "set: a following get returns the row")
@@ -389,7 +397,7 @@ func Verif_C06_ops() {
 		n := verifNewNode(E, NF, typ)
 		keys := []string{"k1", "k2"}[:1+verifChoose("nkeys", 2)]
 		for _, k := range keys {
-			verifRedis.data[k] = verifEntry{verifEnc("ab"), 1}
+			verifRedis.data[verifSlot(k)] = verifEntry{verifEnc("ab"), 1}
 		}
 		verifRedis.faults = true
 		n.DelCtx(ctx, keys...)
